@@ -5,6 +5,7 @@ import (
 	"errors"
 	"fmt"
 	"strings"
+	"sync"
 	"time"
 
 	kmip "github.com/smira/go-kmip"
@@ -320,5 +321,81 @@ func c08Messages(r *Result) {
 			r.Stats["message-text-scenarios"]++
 		}
 		_ = mi
+	}
+}
+
+// c08Registration: "the handler registered for each item's operation is invoked" - whichever operation that is and whenever it
+// was registered: a handler for Discover Versions (which has a built-in one) and handlers for ordinary operations, registered
+// before Serve / after Serve started / replaced after Serve started. Each item's result must be its registered handler's.
+func c08Registration(r *Result) {
+	mk := func(log *[]string, mu *sync.Mutex, name string) kmip.Handler {
+		return func(ctx *kmip.RequestContext, item *kmip.RequestBatchItem) (interface{}, error) {
+			mu.Lock()
+			*log = append(*log, name)
+			mu.Unlock()
+			return nil, reasonErr{name, kmip.RESULT_REASON_PERMISSION_DENIED}
+		}
+	}
+	for _, when := range []string{"before Serve", "after Serve started", "before Serve, replaced after Serve started"} {
+		key := "handlers for Discover Versions, Get and Destroy registered " + when
+		crumb("C08 scenario: " + key)
+		r.eval(key, true)
+		var mu sync.Mutex
+		var calls []string
+		s := &kmip.Server{}
+		ops := []kmip.Enum{kmip.OPERATION_DISCOVER_VERSIONS, kmip.OPERATION_GET, kmip.OPERATION_DESTROY}
+		reg := func(prefix string) {
+			for _, op := range ops {
+				s.Handle(op, mk(&calls, &mu, fmt.Sprintf("%s%d", prefix, uint32(op))))
+			}
+		}
+		want := "h"
+		if when != "after Serve started" {
+			reg("h")
+		}
+		sc, cc := rec.Pipe()
+		l := rec.NewListener()
+		init := make(chan struct{})
+		ret := make(chan error, 1)
+		go func() { ret <- s.Serve(l, init) }()
+		<-init
+		switch when {
+		case "after Serve started":
+			reg("h")
+		case "before Serve, replaced after Serve started":
+			reg("g")
+			want = "g"
+		}
+		l.Push(rec.AcceptStep{Conn: rec.NewConn(sc, 1)})
+		_ = cc.SetDeadline(time.Now().Add(3 * time.Second))
+		req := kmip.Request{Header: kmip.RequestHeader{Version: kmip.ProtocolVersion{Major: 1, Minor: 4}, BatchCount: 3},
+			BatchItems: []kmip.RequestBatchItem{
+				{Operation: kmip.OPERATION_GET, UniqueID: []byte{1}, RequestPayload: kmip.GetRequest{UniqueIdentifier: "a"}},
+				{Operation: kmip.OPERATION_DISCOVER_VERSIONS, UniqueID: []byte{2}, RequestPayload: kmip.DiscoverVersionsRequest{}},
+				{Operation: kmip.OPERATION_DESTROY, UniqueID: []byte{3}, RequestPayload: kmip.DestroyRequest{UniqueIdentifier: "b"}}}}
+		var resp kmip.Response
+		err := kmip.NewEncoder(cc).Encode(&req)
+		if err == nil {
+			err = kmip.NewDecoder(cc).Decode(&resp)
+		}
+		obs := "no response: " + fmt.Sprint(err)
+		if err == nil {
+			mu.Lock()
+			obs = "calls=" + strings.Join(calls, ",") + " results="
+			mu.Unlock()
+			for _, it := range resp.BatchItems {
+				obs += fmt.Sprintf("[%d:%s]", uint32(it.ResultStatus), it.ResultMessage)
+			}
+		}
+		exp := fmt.Sprintf("calls=%[1]s%[2]d,%[1]s%[3]d,%[1]s%[4]d results=[1:%[1]s%[2]d][1:%[1]s%[3]d][1:%[1]s%[4]d]", want, uint32(kmip.OPERATION_GET), uint32(kmip.OPERATION_DISCOVER_VERSIONS), uint32(kmip.OPERATION_DESTROY))
+		if obs != exp {
+			r.find(Finding{Kind: "violation", What: "a batch item was not handled by the handler registered for its operation", Input: key, Expect: exp, Actual: obs})
+		}
+		cc.Close()
+		ctx, cancel := context.WithTimeout(context.Background(), 5*time.Second)
+		_ = s.Shutdown(ctx)
+		cancel()
+		<-ret
+		r.Stats["registration-scenarios"]++
 	}
 }
